@@ -529,26 +529,12 @@ func (pf Producer[T]) GenerateParallel(
 		var zero T
 		pipe.Processor().
 			ReadAll(func(ctx context.Context) (T, error) {
-				if err := ctx.Err(); err != nil {
-					// aborted or abandoned: do not call
-					// the generator again.
-					return zero, err
-				}
-
 				value, err := pf(ctx)
 				if err != nil {
 					if opts.CanContinueOnError(err) {
 						return zero, ErrIteratorSkip
 					}
 
-					// abort: stop the other workers as
-					// well, unless the generator is just
-					// done (a returned io.EOF - not a
-					// recovered panic whose value happens
-					// to be or wrap io.EOF). ReadAll turns
-					// the io.EOF below into nil, so the
-					// observer of the worker never sees it.
-					ft.WhenCall(!errors.Is(err, io.EOF) || errors.Is(err, ErrRecoveredPanic), cancel)
 					return zero, io.EOF
 				}
 				return value, nil
